@@ -568,6 +568,8 @@ func run(e *core.Env) {
 		victimDials := tp.Chance(1, 2)
 		copyChallenge := tp.Chance(3, 4)
 		uaMode := tp.Intn(4) // 0,1: reflect the victim's own proof; 2: leave what the honest code put; 3: random bytes
+		echoMode := tp.Intn(6) // 0..2: the honest echo of the victim's challenge; 3: none; 4: a proper prefix; 5: one byte more
+		badEcho := false
 		pair := w.cn.NewPair("dishonest")
 		vEnd, vDir := pair.B, 1 // the victim reads from vEnd and writes records of direction vDir
 		var dialPanic string
@@ -680,6 +682,22 @@ func run(e *core.Env) {
 			case uaMode == 3:
 				rm["ua"] = tp.Bytes(32)
 			}
+			// ... and it may echo only a part of the victim's challenge (none of it, its first
+			// byte, all but the last byte) or append to it.
+			if echoMode >= 3 {
+				if c, ok := rm["c"].([]byte); ok && len(c) > 1 {
+					switch echoMode {
+					case 3:
+						delete(rm, "c")
+					case 4:
+						rm["c"] = c[:1+tp.Intn(len(c)-1)]
+					default:
+						rm["c"] = append(append([]byte(nil), c...), byte(tp.Intn(256)))
+					}
+					badEcho = true
+					e.Probe("dishonest_peer_echoes_part_of_the_challenge")
+				}
+			}
 			rb, _ := cbor.Marshal(rm)
 			sess := O.Node.State.GetSession(V.Node.IP)
 			if sess == nil {
@@ -721,6 +739,11 @@ func run(e *core.Env) {
 		}
 		if len(V.Node.PanicAlerts()) > 0 {
 			e.Fail("worker-panic:dishonest-peer", "%s: worker panicked with a dishonest remote end (%s)", w.desc, steps)
+		}
+		if linked && badEcho {
+			e.Fail("link-registered-with-peer-that-did-not-echo-the-challenge",
+				"%s: %s (dials=%v) registered a link to an outsider whose response did not carry this connection's challenge (echo mode %d; %s)",
+				w.desc, V.Node.Name, victimDials, echoMode, steps)
 		}
 		if linked && sec[v] != "" {
 			e.Fail("link-registered-with-peer-that-never-proved-the-universe-secret",
